@@ -180,16 +180,33 @@ def _install_hooks():
 
     o_lej = BallDevice.lost_ejected_ball
 
+    # the decision (cancel the path / restore it / give up) and its bookkeeping are the synchronous first part of
+    # lost_ejected_ball; the method then awaits _balls_missing (event posts), during which other devices move on.  The
+    # observation is logged where the decision was taken - at the entry of _balls_missing - so that a state change of the
+    # target during those awaits is not taken to have preceded it.
+    o_bm = BallDevice._balls_missing
+    lej_pending = {}
+
     async def lost_ejected_ball(self, target):
         r = _active[0]
-        before = None
-        if r is not None:
-            before = r.avail_vector()
-        res = await o_lej(self, target)
-        if r is not None:
-            r.log("lost_ejected", self.name, target.name, before, r.avail_vector())
-        return res
+        if r is None:
+            return await o_lej(self, target)
+        lej_pending[id(self)] = (target.name, r.avail_vector())
+        try:
+            return await o_lej(self, target)
+        finally:
+            pend = lej_pending.pop(id(self), None)
+            if pend is not None and _active[0] is r:       # left before _balls_missing (an exception)
+                r.log("lost_ejected", self.name, pend[0], pend[1], r.avail_vector())
     BallDevice.lost_ejected_ball = lost_ejected_ball
+
+    async def _balls_missing(self, balls):
+        r = _active[0]
+        pend = lej_pending.pop(id(self), None)
+        if r is not None and pend is not None:
+            r.log("lost_ejected", self.name, pend[0], pend[1], r.avail_vector())
+        return await o_bm(self, balls)
+    BallDevice._balls_missing = _balls_missing
 
     o_li = BallDevice.lost_idle_ball
 
@@ -1154,6 +1171,17 @@ def _run_case(case, run, res, model):
         if starved:
             res.fail("stuck:source-not-woken-after-incoming-ball-lost:two-sources", dict(ctxd, waiting_source=starved))
             return
+        if p["topo"] == "two_src" and not broken and s["plunger"]["state"] == "waiting_for_ball" and s["plunger"]["counted"] == 0:
+            # third recorded finding of the two-sources topology: a source's ball is declared lost on its way to the target;
+            # lost_ejected_ball restores the path by asking the SAME source for another ball (self.eject(target)) after
+            # debiting the target (available_balls -= 1).  A source that has no ball left (the lock) only queues the request:
+            # the target waits for that ball for ever although the other source holds an available ball
+            for d, other in (("lock", "trough"), ("trough", "lock")):
+                if s[d]["counted"] == 0 and s[d]["reqs"] >= 1 and s[d]["state"] == "idle" and \
+                        s[other]["counted"] > 0 and s[other]["state"] == "idle" and s[other]["avail"] > 0 and \
+                        any(o[1] == "lost_ejected" and o[2] == d and o[3] == "plunger" for o in run.obs):
+                    res.fail("stuck:path-restored-through-empty-source:two-sources", dict(ctxd, empty_source=d))
+                    return
         if p["topo"] == "chain" and not broken and s["plunger"]["state"] == "waiting_for_target_ready" and \
                 s["lock"]["cap"] - s["lock"]["counted"] > s["lock"]["incoming"] and s["lock"]["state"] == "idle" and \
                 not s["lock"]["queue"] and any(o[1] == "lost_incoming" and o[2] == "lock" for o in run.obs):
